@@ -11,14 +11,6 @@ Definition this_ok (cpp icls : option typename) (this_cpp : string) : Prop :=
           | None => match cpp with Some x => x | None => Typename [] (NStr "") [] end
           end) = this_cpp.
 
-(* parser-shaped types: string names, no instantiations on plain types *)
-Fixpoint parsed_ty (t : ty) : bool :=
-  match t with
-  | TPlain (Typename _ (NStr _) []) _ _ _ => true
-  | TTempl _ (NStr _) ps _ _ => forallb parsed_ty ps
-  | _ => false
-  end.
-
 (* Full statement: for every parser-shaped type, every parameter list and every occurrence depth *)
 Definition C02_full (q : quirks) : Prop :=
   forall tnames insts cpp icls this_cpp t,
@@ -30,27 +22,27 @@ Definition plain (ns : list string) (n : string) := TPlain (Typename ns (NStr n)
 Definition vec (t : ty) := TTempl ["std"] (NStr "vector") [t] false PNone.
 
 (* std::vector<std::vector<T>> keeps its T: only the first template-argument level is rewritten *)
-Theorem C02_refuted_depth : forall q, ~ C02_full q.
+Theorem C02_refuted_depth : forall q, q_first_level_only q = true -> ~ C02_full q.
 Proof.
-  intros q H.
+  intros q Hq H. revert Hq.
   specialize (H ["T"] [tA] (Some (Typename [] (NStr "C<A>") [])) None "C<A>" (vec (vec (plain [] "T")))
                 eq_refl eq_refl eq_refl).
-  destruct q as [qa qb qc]. vm_compute in H. discriminate H.
+  destruct q as [qa qb qc qd]. cbn. intros Hq. subst qd. vm_compute in H. discriminate H.
 Qed.
 Print Assumptions C02_refuted_depth.
 
 (* T::Type with T = A becomes A::Aype: the scoped rewrite is a substring replacement *)
-Theorem C02_refuted_substring : forall q, q_scoped_substring q = true ->
+Theorem C02_refuted_substring : forall q, q_scoped_substring q = true -> q_first_level_only q = true ->
   ty_cpp (inst_type q ["T"] [tA] None None (plain ["T"] "Type")) = "A::Aype" /\
   subst_cpp ["T"] [tA] "" (plain ["T"] "Type") = "A::Type".
-Proof. intros [qa qb qc] Hq. cbn in Hq. subst qb. vm_compute. split; reflexivity. Qed.
+Proof. intros [qa qb qc qd] Hq Hd. cbn in Hq, Hd. subst qb qd. vm_compute. split; reflexivity. Qed.
 Print Assumptions C02_refuted_substring.
 
 (* vector<This> is not rewritten *)
-Theorem C02_refuted_this_arg : forall q,
+Theorem C02_refuted_this_arg : forall q, q_first_level_only q = true ->
   ty_cpp (inst_type q [] [] (Some (Typename [] (NStr "C") [])) None (vec (plain [] "This"))) = "std::vector<This>" /\
   subst_cpp [] [] "C" (vec (plain [] "This")) = "std::vector<C>".
-Proof. intros [qa qb qc]. vm_compute. split; reflexivity. Qed.
+Proof. intros [qa qb qc qd] Hd. cbn in Hd. subst qd. vm_compute. split; reflexivity. Qed.
 Print Assumptions C02_refuted_this_arg.
 
 (* Partial statement, for every quirk setting: on dom_ty (parameters as whole names at the top or at
@@ -58,9 +50,19 @@ Print Assumptions C02_refuted_this_arg.
    of Subst.v on the printed spelling) instantiation IS substitution *)
 Theorem C02_partial : forall q tnames insts cpp icls this_cpp,
   length tnames = length insts -> this_ok cpp icls this_cpp ->
-  forall t, dom_ty tnames insts t = true ->
+  forall t, dom_q q tnames insts t = true ->
   ty_cpp (inst_type q tnames insts cpp icls t) = subst_cpp tnames insts this_cpp t.
-Proof. exact inst_type_refines. Qed.
+Proof. exact inst_type_refines_q. Qed.
+
+(* the structural-substitution member of the model family (quirk q_first_level_only off) satisfies
+   the FULL statement: this is what a repaired implementation is tied to *)
+Theorem C02_full_when_repaired : forall q, q_first_level_only q = false -> C02_full q.
+Proof.
+  intros q Hq tnames insts cpp icls this_cpp t Hlen Hthis Hp.
+  apply (inst_type_refines_q q tnames insts cpp icls this_cpp Hlen Hthis t).
+  unfold dom_q. rewrite Hq. exact Hp.
+Qed.
+Print Assumptions C02_full_when_repaired.
 Print Assumptions C02_partial.
 
 Example C02_partial_nonvacuous :
@@ -76,7 +78,7 @@ Proof. vm_compute. repeat split; reflexivity. Qed.
 (* signatures: argument types, in order; names and default texts untouched, count unchanged *)
 Theorem C02_args : forall q tnames insts cpp this_cpp,
   length tnames = length insts -> this_ok cpp None this_cpp ->
-  forall l, dom_args tnames insts l = true ->
+  forall l, dom_args q tnames insts l = true ->
   map (fun a => ty_cpp (a_ty a)) (inst_args q tnames insts cpp l)
   = map (fun a => subst_cpp tnames insts this_cpp (a_ty a)) l.
 Proof. exact inst_args_refines. Qed.
@@ -84,7 +86,7 @@ Print Assumptions C02_args.
 
 Theorem C02_return : forall q tnames insts cpp this_cpp,
   length tnames = length insts ->
-  forall icls r, this_ok cpp icls this_cpp -> dom_ret tnames insts r = true ->
+  forall icls r, this_ok cpp icls this_cpp -> dom_ret_q q tnames insts r = true ->
   ret_cpp (inst_ret q tnames insts cpp icls r) = subst_ret_cpp tnames insts this_cpp r.
 Proof. exact inst_ret_refines. Qed.
 Print Assumptions C02_return.
@@ -93,7 +95,7 @@ Print Assumptions C02_return.
 Theorem C02_untouched_quals : forall q tnames insts cpp icls t,
   ty_const (inst_type q tnames insts cpp icls t) = ty_const t /\
   ty_ptr (inst_type q tnames insts cpp icls t) = ty_ptr t.
-Proof. exact inst_type_quals. Qed.
+Proof. exact inst_type_quals_q. Qed.
 Print Assumptions C02_untouched_quals.
 
 Theorem C02_untouched_names : forall q tnames insts cpp l,
